@@ -53,6 +53,23 @@ def resolve_table_expr(model: Model, fi: FuncInfo, expr: ast.AST, depth=0) -> Li
         if r and r[0] == "assign":
             return _resolve_in_module(model, r[1], r[2], depth + 1)
         return []
+    if isinstance(expr, ast.Subscript) and isinstance(expr.value, ast.Name):
+        # a dict of tables held in a (module-level or local) name
+        base = None
+        for d in function_defs(fi.node).get(expr.value.id, []):
+            if isinstance(d, ast.Dict):
+                base = d
+        if base is None:
+            r = model.resolve_global(fi.module, expr.value.id)
+            hops = 0
+            while r and r[0] == "assign" and isinstance(r[2], ast.Name) and hops < 4:
+                r = model.resolve_global(r[1], r[2].id)
+                hops += 1
+            if r and r[0] == "assign" and isinstance(r[2], ast.Dict):
+                base = r[2]
+        if base is not None:
+            return resolve_table_expr(model, fi, ast.Subscript(value=base, slice=expr.slice, ctx=ast.Load()), depth + 1)
+        return []
     if isinstance(expr, ast.Subscript) and isinstance(expr.value, ast.Dict):
         out = []
         for k, v in zip(expr.value.keys, expr.value.values):
